@@ -95,12 +95,14 @@ let handle line =
       let c = { c_bf = bf_of ld li md mi; c_enc = enc_of e; c_dry = (d = "1");
                 c_exts = exts_of exts; c_noiter = (n = "1") } in
       let opt s = if s = "-" then None else Some (nat_of_int (int_of_string s)) in
-      let (acc, r) = output_faulty c (str_of_hex input) (opt k) (opt b) in
+      let (acc, r) = if _fl = "2" then output_faulty_kth c (str_of_hex input) (nat_of_int (int_of_string b))
+                     else output_faulty c (str_of_hex input) (opt k) (opt b) in
       res_str r ^ " " ^ hex_of_str acc
   | ["frout"; b; _fl; e; d; ld; li; md; mi; items] ->
       let c = { c_bf = bf_of ld li md mi; c_enc = enc_of e; c_dry = (d = "1"); c_exts = []; c_noiter = false } in
       (match forest_of_items (items_of items) [] with
-       | [t] -> let (acc, r) = output_root_faulty c t (nat_of_int (int_of_string b)) in res_str r ^ " " ^ hex_of_str acc
+       | [t] -> let (acc, r) = if _fl = "2" then output_root_faulty_kth c t (nat_of_int (int_of_string b))
+                               else output_root_faulty c t (nat_of_int (int_of_string b)) in res_str r ^ " " ^ hex_of_str acc
        | _ -> "badcase")
   | ["walk"; ld; li; md; mi; fail; input] ->
       let c = { c_bf = bf_of ld li md mi; c_enc = EncDefault; c_dry = false; c_exts = []; c_noiter = false } in
